@@ -467,3 +467,45 @@ def deep_underdeclared_frames(rnd, depth):
         yield envelope(1, 0, p), 'deep-underdeclared:%s:%d' % (name, depth)
         h = struct.pack('>HHQH', 60, 0, 0, 0x2000) + table
         yield envelope(2, 1, h), 'deep-underdeclared:%s:%d' % (name, depth)
+
+
+def long_flag_runs(rnd):
+    """Content headers whose property-flag words keep the continuation bit
+    set for 8 .. 2000 words (then end, or run into the end of the payload),
+    with the words all-ones, zero, random: work and memory must stay
+    proportional to the frame whatever the decoder accumulates per word."""
+    for n in (8, 33, 100, 400, 1000, 2000):
+        for style in ('ones', 'zero', 'random'):
+            words = []
+            for i in range(n):
+                w = {'ones': 0xFFFF, 'zero': 0x0001,
+                     'random': rnd.getrandbits(16) | 1}[style]
+                words.append(w)
+            for ending in ('end', 'cut'):
+                ws = list(words)
+                if ending == 'end':
+                    ws.append(rnd.choice([0x0000, 0x8000, 0x0004]))
+                p = struct.pack('>HHQ', 60, 0, 1) + b''.join(
+                    struct.pack('>H', w) for w in ws)
+                if ending == 'end' and ws[-1] & 0x8000:
+                    p += b'\x01x'
+                yield envelope(2, 1, p), 'flag-run:%s:%s' % (style, ending)
+
+
+def huge_size_headers(rnd):
+    """Frame headers whose size field has the top bit set (what a signed
+    read turns negative), followed by few bytes with 0xCE at every early
+    position, by whole frames, by nothing."""
+    tails = [b'', b'\xce', b'junk\xce', b'\x00' * 16]
+    for k in range(1, 18):
+        tails.append(b'\x00' * (k - 1) + b'\xce' + b'\x00' * 4)
+    hb = b'\x08\x00\x00\x00\x00\x00\x00\xce'
+    tails += [hb, b'junk' + hb, b'\xce' + hb, hb + hb]
+    for size in (0x80000000, 0x80000001, 0xFFFFFFF0, 0xFFFFFFF7, 0xFFFFFFF8,
+                 0xFFFFFFF9, 0xFFFFFFFA, 0xFFFFFFFE, 0xFFFFFFFF, 0xCE000000,
+                 0x800000CE):
+        for t in (1, 2, 3, 8):
+            for ch in (0, 1, 0xCE01):
+                for tail in tails:
+                    yield struct.pack('>BHI', t, ch, size) + tail, \
+                        'huge-size'
